@@ -19,7 +19,7 @@ func init() {
 		Fn: checkC01, Level: "model_checking",
 		Rule: "differential replay of whole histories on the real app built from sources rewritten through the map-order/clock seam (every range over a map and every time.Now in x/, app/, lib/, utils/, types/; site list recomputed from the current tree): histories = shared skeletons (without the two 2 000-block ones) + mode-tie, multi-reward, equal-power-reward and three-way-mode-tie skeletons with <=k deviations (quick: k=0 over all, k=1 over the order-sensitive sub-alphabet around the multi-reward, equal-power-reward and three-way-mode-tie skeletons, first two dynamic occurrences per seam site and skeleton history, the first in deviated histories; thorough: k=1 full alphabet, every occurrence); for each history the reference run (sorted key order) is compared with one re-execution per dynamic map-range occurrence (>=2 keys) x every alternative key order (all permutations up to 4 keys, else reverse+rotations), with an adversarial wall clock, with a different node configuration (AppOptions/viper) and with a plain second run; oracle: identical per-block digests (all store key/values + all events in order) and identical tx accept/reject vectors",
 		Assume:      []string{"map iteration inside cosmos-sdk/cometbft/go-ethereum is not seamed (trusted)", "gas is not part of the digest", "the consensus state machine starts no goroutines (the go statements found by the rewriter are listed in evidence: daemon start-up only)"},
-		QuickBudget: 8 * time.Minute, ThoroughBudget: 15 * time.Minute,
+		QuickBudget: 10 * time.Minute, ThoroughBudget: 15 * time.Minute,
 	})
 }
 
